@@ -155,6 +155,10 @@ def c05(tier, replay):
     R.need(kt, ["keypairs", "transpositions"])
     run.cov["key_pairs"] = {"perturbation_pairs": ksum["perturbations"], "transposition_candidates": ksum["transposition_candidates"],
                             "true_transpositions": kt.get("transpositions", 0)}
+    # direction spec -> code: the special moves of the TLC-enumerated families (landing on a corner - also by a king -, castling,
+    # promotion): the successor's key residue must be empty AND the state it belongs to must be the rules' position (route clause)
+    R.family_direction_a(run, "C05", ("residue-after", "successor-after"), {"castle": 8, "promo": 10, "rookcap": 4} if tier == "quick" else {"castle": 1, "promo": 1, "rookcap": 1},
+                         fams=("castle", "promo", "rookcap"))
     model_game(run, tier)
     run.assumptions.append("XOR of 64-bit constants is abstracted as symmetric difference of feature sets; sound because the audit "
                            "shows the 781 constants distinct and non-zero (residues are resolved up to three features)")
